@@ -32,14 +32,14 @@ fn space_for(tier: Tier) -> (Space, usize) {
     let mut s = Space::new();
     match tier {
         Tier::Quick => {
-            s.ast("GC", 6, 64).ast("K", 5, 64).ast("U", 4, 64).ast("NEST", 7, 64).ast("CAPQ", 5, 64).ast("ALTC", 6, 64).ast("NESTN", 4, 64).ast("BR3", 5, 64).ast("ANCG", 5, 64).ast("CAPR", 4, 64);
+            s.ast("GC", 6, 64).ast("K", 5, 64).ast("U", 4, 64).ast("NEST", 7, 64).ast("CAPQ", 5, 64).ast("ALTC", 6, 64).ast("NESTN", 4, 64).ast("BR3", 5, 64).ast("ANCG", 5, 64).ast("CAPR", 4, 64).ast("OPTG", 5, 64).ast("Z", 6, 64);
             s.ast_range("GCM", 1, 5, 64, 1).ast_range("GCE", 1, 4, 64, 1).ast_range("ANCG", 1, 5, 64, 1);
             s.list("ladder", LADDER.len() as u64, 1);
             (s, 4)
         }
         Tier::Thorough => {
             s.ast("GC", 6, 64).ast("K", 5, 64).ast("U", 4, 64).ast("NEST", 7, 64).ast("CAPQ", 5, 64).ast("ALTC", 6, 64);
-            s.ast("NESTN", 5, 64).ast("BR3", 5, 64).ast("ANCG", 6, 64).ast("CAPR", 4, 64);
+            s.ast("NESTN", 5, 64).ast("BR3", 5, 64).ast("ANCG", 6, 64).ast("CAPR", 4, 64).ast("OPTG", 5, 64).ast("Z", 6, 64);
             s.ast_range("GCM", 1, 5, 64, 1).ast_range("GCE", 1, 4, 64, 1).ast_range("ANCG", 1, 6, 64, 1);
             // deeper layers restricted (by the shape of the pattern, decided by the
             // reference parser) to patterns without a group inside a repetition
